@@ -112,7 +112,17 @@ func (_this *Session) GetIteratorForType(t reflect.Type) IteratorFunction {
 		return storedIterator.(IteratorFunction)
 	}
 
+	generated := false
+	defer func() {
+		if !generated {
+			// The generator panicked (unsupported type). Don't leave the placeholder
+			// behind: anyone calling it would wait forever.
+			_this.iteratorFuncs.Delete(t)
+			wg.Done()
+		}
+	}()
 	iterator = _this.getDefaultIteratorForType(t)
+	generated = true
 	wg.Done()
 	_this.iteratorFuncs.Store(t, iterator)
 	return iterator
